@@ -23,7 +23,7 @@ pub fn bounds(tier: Tier) -> Bounds {
     let env = |k: &str, d: u64| std::env::var(k).ok().and_then(|s| s.parse().ok()).unwrap_or(d);
     match tier {
         Tier::Quick => Bounds {
-            e1_depth: env("VERIF_RAFT_E1_DEPTH", 9) as u32,
+            e1_depth: env("VERIF_RAFT_E1_DEPTH", 8) as u32,
             e1_max_dups: env("VERIF_RAFT_E1_DUPS", 1) as u8,
             e1_max_appends: env("VERIF_RAFT_E1_APPENDS", 1) as u8,
             e1_state_cap: env("VERIF_RAFT_E1_CAP", 30_000_000),
